@@ -9,6 +9,7 @@ import (
 	"fmt"
 	"runtime"
 	"sort"
+	"strconv"
 	"sync"
 	"time"
 
@@ -65,15 +66,17 @@ type run struct {
 	// regulator is inside the assign callback (it must block on the
 	// regulator's lock until the outer operation is over)
 	nestTable string
+	nestRel   int // >= 0: instead of a sync, the in-flight release with this index arrives on the second goroutine
 	nest      *nested
 
 	// transient delivery failure of an assignment: the callback answers with
 	// an error once, the regulator's immediate retry succeeds
-	failAssign  bool
-	failedOnce  bool
+	failAssign bool
+	failedOnce bool
 }
 
 type nested struct {
+	release   *release // a ReleasePlayers call instead of a sync
 	table     string
 	goid      int64
 	done      chan struct{}
@@ -492,8 +495,14 @@ func (r *run) opSync(id string, out int, key uint64) (int, int, bool) {
 	if r.dead {
 		return 0, 0, false
 	}
-	a, b, c := r.follow(id, out, key, rel, np, err)
+	// a call that arrived on the second goroutine during a callback of this
+	// sync completes now (it was waiting for the lock); only then does this
+	// goroutine touch the simulated tables again
 	r.finishNested()
+	if r.dead {
+		return 0, 0, false
+	}
+	a, b, c := r.follow(id, out, key, rel, np, err)
 	return a, b, c
 }
 
@@ -630,6 +639,7 @@ func (r *run) apply(st *sim.Step) {
 		return 0
 	}
 	r.nestTable = ""
+	r.nestRel = -1
 	r.failAssign, r.failedOnce = false, false
 	for _, x := range st.SArgs {
 		if x == "fail-assign-once" {
@@ -639,6 +649,11 @@ func (r *run) apply(st *sim.Step) {
 	for _, x := range st.SArgs {
 		if len(x) > 5 && x[:5] == "nest:" {
 			r.nestTable = x[5:]
+		}
+		if len(x) > 8 && x[:8] == "nestrel:" {
+			if k, err := strconv.Atoi(x[8:]); err == nil && k >= 0 {
+				r.nestRel = k
+			}
 		}
 	}
 	switch st.Op {
@@ -857,6 +872,9 @@ func (w World) Generate(subseed uint64, o sim.Options) *sim.Result {
 			st := sim.Step{Actor: "registrar", Op: "add", Args: []int64{int64(n)}, Fault: fault}
 			if len(live) > 1 && rng.Chance(nestRate) {
 				st.SArgs = []string{"nest:" + live[rng.Intn(len(live))]}
+				if len(r.inflight) > 0 && rng.Chance(0.5) {
+					st.SArgs = []string{fmt.Sprintf("nestrel:%d", rng.Intn(len(r.inflight)))}
+				}
 			} else if rng.Chance(failRate) {
 				st.SArgs = []string{"fail-assign-once"}
 			}
@@ -870,7 +888,12 @@ func (w World) Generate(subseed uint64, o sim.Options) *sim.Result {
 					out = 100 // everybody but one
 				}
 			}
-			do(sim.Step{Actor: "table", Op: "sync", SArgs: []string{id}, Args: []int64{int64(out), int64(rng.Uint64() >> 1)}})
+			syncStep := sim.Step{Actor: "table", Op: "sync", SArgs: []string{id}, Args: []int64{int64(out), int64(rng.Uint64() >> 1)}}
+			if len(r.inflight) > 0 && rng.Chance(nestRate) {
+				// a release in transit arrives while this sync is inside a callback
+				syncStep.SArgs = append(syncStep.SArgs, fmt.Sprintf("nestrel:%d", rng.Intn(len(r.inflight))))
+			}
+			do(syncStep)
 			// the release travels through the transport: delivered at once or later
 			if len(r.inflight) > 0 {
 				if rng.Chance(delayRate) {
@@ -889,6 +912,9 @@ func (w World) Generate(subseed uint64, o sim.Options) *sim.Result {
 			st := sim.Step{Actor: "transport", Op: "deliver", Args: []int64{int64(rng.Intn(len(r.inflight)))}, Fault: "late-release"}
 			if len(live) > 1 && rng.Chance(nestRate) {
 				st.SArgs = []string{"nest:" + live[rng.Intn(len(live))]}
+				if len(r.inflight) > 1 && rng.Chance(0.5) {
+					st.SArgs = []string{fmt.Sprintf("nestrel:%d", rng.Intn(len(r.inflight)-1))}
+				}
 			} else if rng.Chance(failRate) {
 				st.SArgs = []string{"fail-assign-once"}
 			}
@@ -991,6 +1017,10 @@ func (w World) Simplify(c *sim.Case) []*sim.Case {
 // a second goroutine. The regulator's lock must make it wait; whether it does
 // is observed (mutex wait reason), not assumed.
 func (r *run) launchNested(assignedTo string) {
+	if r.nestRel >= 0 && r.nest == nil && len(r.inflight) > 0 {
+		r.launchNestedRelease()
+		return
+	}
 	if r.nestTable == "" || r.nest != nil || r.nestTable == assignedTo {
 		return
 	}
@@ -1044,6 +1074,58 @@ func (r *run) launchNested(assignedTo string) {
 	}
 }
 
+// launchNestedRelease: a release that is in transit arrives on a second
+// goroutine while the regulator is inside the assign callback.
+func (r *run) launchNestedRelease() {
+	k := r.nestRel % len(r.inflight)
+	rel := r.inflight[k]
+	r.inflight = append(append([]release{}, r.inflight[:k]...), r.inflight[k+1:]...)
+	n := &nested{release: &rel, table: rel.table, done: make(chan struct{})}
+	r.nest = n
+	// the released players go to the queue and may be handed out from there
+	for _, p := range rel.players {
+		r.allowed[p] = true
+	}
+	ready := make(chan struct{})
+	go func() {
+		n.goid = sim.GoID()
+		close(ready)
+		defer close(n.done)
+		defer func() {
+			if x := recover(); x != nil {
+				n.pan = fmt.Sprint(x)
+			}
+		}()
+		n.err = r.reg.ReleasePlayers(rel.table, rel.players)
+	}()
+	<-ready
+	r.res.Count("fault.release-during-assign-callback", 1)
+	deadline := time.Now().Add(5 * time.Second)
+	for spins := 0; ; spins++ {
+		select {
+		case <-n.done:
+			n.ranInside = true
+			r.probe("nested-release-ran-inside-the-callback")
+			return
+		default:
+		}
+		if spins > 20 {
+			if sim.BlockedOnLock(map[int64]bool{n.goid: true})[n.goid] {
+				r.probe("nested-release-blocked-on-the-lock")
+				return
+			}
+			time.Sleep(20 * time.Microsecond)
+		} else {
+			runtime.Gosched()
+		}
+		if time.Now().After(deadline) {
+			r.res.Fault = "watchdog: nested release neither finished nor blocked"
+			r.dead = true
+			return
+		}
+	}
+}
+
 // finishNested is called after the outer operation has returned: a nested
 // sync that had to wait for the lock completes now and is followed.
 func (r *run) finishNested() {
@@ -1051,21 +1133,32 @@ func (r *run) finishNested() {
 	if n == nil {
 		return
 	}
+	// nothing further is armed: the callbacks that the waiting call itself
+	// triggers (on its goroutine, from now on) must not launch another one
+	r.nestRel, r.nestTable = -1, ""
+	if !n.ranInside {
+		select {
+		case <-n.done:
+		case <-time.After(5 * time.Second):
+			r.res.Fault = "watchdog: nested call did not finish after the outer operation"
+			r.dead = true
+			return
+		}
+	}
 	r.nest = nil
-	if n.ranInside {
-		return
-	}
-	select {
-	case <-n.done:
-	case <-time.After(5 * time.Second):
-		r.res.Fault = "watchdog: nested sync did not finish after the outer operation"
-		r.dead = true
-		return
-	}
 	if n.pan != "" {
 		r.viol("C09", "panic", n.pan)
 		r.viol("C20", "panic", n.pan)
 		r.dead = true
+		return
+	}
+	if n.release != nil {
+		if n.err != nil {
+			r.viol("C09", "release-refused", fmt.Sprintf("ReleasePlayers(%s,%v) arriving during another call returned %v", n.release.table, n.release.players, n.err))
+		}
+		return
+	}
+	if n.ranInside {
 		return
 	}
 	// its hand-outs come from the queue as it is now
